@@ -37,11 +37,13 @@ def ff_getters(repo, res, ty, rule="FF"):
             res.undecided(rule, f"{rule}:{fq}", "function not found")
             continue
         envs = A.collect_envs(fn)
-        somes = [c for c in P.find_calls(fn.body, names={"Some"}) if c["args"] and c["args"][0]["k"] == "Tuple"]
+        # the row: the tuple inside `Some((..))` of a filter_map, or the tuple pushed onto the result by a loop
+        somes = [c["args"][0] for c in P.find_calls(fn.body, names={"Some"}) if c["args"] and c["args"][0]["k"] == "Tuple"]
+        somes += [c["args"][0] for c in P.find_calls(fn.body, methods={"push"}) if c["args"] and c["args"][0]["k"] == "Tuple"]
         ok = len(somes) == 1
         why = f"{len(somes)} row constructors"
         if ok:
-            tup = somes[0]["args"][0]
+            tup = somes[0]
             env = envs.get(id(tup))
             ps = [A.resolve(x, env) for x in tup["elems"]]
             good = True
